@@ -88,9 +88,24 @@ pub fn injected_fault(salt: usize) -> std::io::Error {
 }
 
 /// "-" = empty schedule; otherwise comma separated counts, `F` = fault
+/// (s_c20, wave 6: `F<k>` = fault whose io::ErrorKind is entry k of the table of `injected_fault`; readers that do
+/// not ask `parse_sched_kinds` treat it as a plain `F`)
 pub fn parse_sched(s: &str) -> Vec<Option<usize>> {
     if s == "-" || s.is_empty() {
         return Vec::new();
     }
-    s.split(',').map(|x| if x == "F" { None } else { Some(x.parse::<usize>().unwrap()) }).collect()
+    s.split(',').map(|x| if x == "F" || fault_kind(x).is_some() { None } else { Some(x.parse::<usize>().unwrap()) }).collect()
+}
+
+/// `F<k>` -> Some(k); anything else (a plain `F`, a count) -> None
+pub fn fault_kind(x: &str) -> Option<usize> {
+    x.strip_prefix('F').filter(|d| !d.is_empty()).and_then(|d| d.parse::<usize>().ok())
+}
+
+/// the explicit fault kind of every event of a schedule (parallel to `parse_sched`); `injected_fault(k)` builds the error
+pub fn parse_sched_kinds(s: &str) -> Vec<Option<usize>> {
+    if s == "-" || s.is_empty() {
+        return Vec::new();
+    }
+    s.split(',').map(fault_kind).collect()
 }
